@@ -15,8 +15,20 @@ def cB(b):
     return "[%s]%%N" % ";".join(str(x) for x in b)
 
 
-def decode_with_pydap(raw):
-    """-> (little?, {path: (dtype str, shape, canonical values)}) or ('raise', name)"""
+def snapshot_dataset(ds):
+    """{path: canonical values} of a decoded dataset, read from the dataset object as it is NOW"""
+    import numpy as np
+    from pydap.lib import walk
+    from pydap.model import BaseType
+    out = {}
+    for v in walk(ds, BaseType):
+        path = v.attributes.get("path")
+        out[(path + "/" + v.name) if path else v.name] = canon(np.asarray(v.data))
+    return out
+
+
+def decode_with_pydap(raw, keep=None):
+    """-> (little?, {path: (dtype str, shape, canonical values)}) or ('raise', name); the dataset object is appended to `keep`"""
     import numpy as np
     from pydap.handlers.dap import UNPACKDAP4DATA
     from pydap.lib import walk
@@ -24,6 +36,8 @@ def decode_with_pydap(raw):
     try:
         u = UNPACKDAP4DATA(io.BufferedReader(io.BytesIO(raw)))
         ds = u.dataset
+        if keep is not None:
+            keep.append(ds)
         out = {}
         for v in walk(ds, BaseType):
             path = v.attributes.get("path")
@@ -59,6 +73,32 @@ def main():
         root = D.gen_dataset(rng)
         vs = list(D.variables(root))
         dmr = D.render_dmr(root)
+        if i % 3 == 1 and vs:
+            # two responses with the SAME DMR and other values (two time steps of one request), decoded one after the other: the
+            # dataset decoded first keeps its values
+            other = [np.ascontiguousarray(np.asarray(v.values).reshape(-1)[::-1].reshape(np.asarray(v.values).shape)) if np.asarray(v.values).size > 1
+                     else np.asarray(v.values) + np.asarray(1, dtype=np.asarray(v.values).dtype) for v in vs]
+            held = []
+            l1, l2 = rng.random() < 0.5, rng.random() < 0.5
+            for vals, lit in (([v.values for v in vs], l1), (other, l2)):
+                ser_ = D.serialize(list(zip(vs, vals)), lit)
+                pay_ = b"".join(raw_ + cks_ for raw_, cks_ in ser_)
+                decode_with_pydap(D.respond(dmr, pay_, lit, D.partition_sizes(rng, len(pay_), rng.choice(["one", 3, "random"]))), held)
+            r.count(("dap4-two-responses", i))
+            if len(held) == 2:
+                snaps = [snapshot_dataset(d_) for d_ in held]
+                for which, vals in ((0, [v.values for v in vs]), (1, other)):
+                    for v, val in zip(vs, vals):
+                        ks = [k for k in snaps[which] if k.lstrip("/") == v.path.lstrip("/")]
+                        if (held[0] is held[1] or len(ks) != 1 or snaps[which][ks[0]] != canon(val)) and len(direct) < 10:
+                            direct.append({"law": "two responses decoded one after the other give two datasets, each with the values of its "
+                                                  "own response (the earlier one keeps them)", "dmr": dmr.decode(), "variable": v.path,
+                                           "response": which + 1, "same_object": held[0] is held[1],
+                                           "held": snaps[which].get(ks[0] if ks else None, None) and snaps[which][ks[0]][:8],
+                                           "served": canon(val)[:8]})
+                            break
+            else:
+                direct.append({"law": "reference response decodes", "dmr": dmr.decode(), "error": "one of two responses with the same DMR"})
         for little in (True, False):
             ser = D.serialize([(v, v.values) for v in vs], little)
             payload = b"".join(raw + cks for raw, cks in ser)
